@@ -202,7 +202,10 @@ Inductive op :=
 | OSel (c : nat) (idxs : list nat)                   (* E.append(E[c][start:stop:step]), idxs = selected indices *)
 | OTcSel (t : nat) (idxs : list nat)                 (* T.append(T[t][start:stop:step]) *)
 | OTrSel (k : nat) (idxs : list nat)                 (* K.append(K[k][start:stop:step]) *)
-| OTcClone (t : nat).                                (* T.append(copy.deepcopy / pickle round trip of T[t]) *)
+| OTcClone (t : nat)                                 (* T.append(copy.deepcopy / pickle round trip of T[t]) *)
+| OExtendSelf (c : nat) (copy force : bool).
+      (* E[c].extend(E[c], copy=, force_consistency=): like a list, the emulsion is extended by the droplets it
+         held BEFORE the call (also spelled with an alias of E[c], list(E[c]), tuple(E[c]) or the slice E[c][:]) *)
 
 (* ---- droplets ---- *)
 
@@ -290,6 +293,13 @@ Definition exec_extend h c (is : list nat) copy force : heap * outcome :=
                | None => (h, Err EIndex)
                | Some _ => extend_locs h c ls copy force
                end
+  end.
+
+(* self-extension: the argument is the member list as it was before the call *)
+Definition exec_extend_self h c copy force : heap * outcome :=
+  match nth_error (ems h) c with
+  | None => (h, Err EIndex)
+  | Some e => extend_locs h c (e_mem e) copy force
   end.
 
 Definition exec_get h c i : heap * outcome :=
@@ -810,6 +820,7 @@ Definition exec (h : heap) (o : op) : heap * outcome :=
   | OTcSel t idxs => exec_tcsel h t idxs
   | OTrSel k idxs => exec_trsel h k idxs
   | OTcClone t => exec_tcclone h t
+  | OExtendSelf c cp f => exec_extend_self h c cp f
   end.
 
 Definition run (h : heap) (os : list op) : heap := fold_left (fun h o => fst (exec h o)) os h.
@@ -1029,6 +1040,7 @@ Definition sep_op (o : op) : bool :=
   | OAppend _ _ cp _ => cp
   | OExtend _ _ cp _ => cp
   | OEmCtor _ _ cp _ => cp
+  | OExtendSelf _ cp _ => cp
   | _ => true
   end.
 
@@ -1370,6 +1382,11 @@ Definition spec_step (s : spec) (o : op) : spec * outcome :=
         | (_, Err x) => (s, Err x)
         end
       end
+    end
+  | OExtendSelf c _ f =>
+    match nth_error (s_ems s) c with
+    | None => (s, Err EIndex)
+    | Some (_, vs) => sp_extend s c vs f
     end
   end.
 
